@@ -11,30 +11,57 @@ proved model (digitize based) and with each other, for redshifts drawn from
 edges U midpoints U {below zmin, above zmax} (plus a few generic values), both closed sides,
 weighted / unweighted, several patches, bins without objects, patches without an object inside
 the binning.
+
+Process boundary: the same cases are also run with the work done by WORKER PROCESSES, where every
+object that carries the rule (Binning, BinningConfig, Configuration, inside the ParallelJob that
+yaw sends with each task) is pickled before it is used:
+  * 'real' flavour: max_workers >= 2 on the real multiprocessing pool (YAW_NUM_THREADS raised),
+  * 'pickling' flavour: an in-process pool (harness/sim/pool.py FakePool subclassed here) that puts
+    every task and result through multiprocessing's ForkingPickler, deterministic and cheap, so
+    the exhaustive edge-value placements are run through it as well,
+  * 'transport' flavour: the binning / configuration handed to BinnedTrees.build,
+    HistData.from_catalog and autocorrelate went through pickle / ForkingPickler / copy / deepcopy /
+    Binning.copy / a pickled ParallelJob first;
+all are compared with the same Coq checker c10_case against the CONFIGURED closed side.  Besides,
+the transports themselves (the three object types x pickle protocols 0-5, ForkingPickler, copy,
+deepcopy, Binning.copy, ParallelJob args/kwargs, a real worker process: the worker's view and the
+object sent back) and the binning that results report (tree cache, HistData, CorrFunc) are
+compared on (closed, edges) in Coq (c10_transport_case; C10_member_determines_binning: nothing
+less than equal closed side and edges keeps every redshift in its bin).
 """
+import copy
 import itertools
+import multiprocessing
+import pickle
 import shutil
 import traceback
+from multiprocessing.reduction import ForkingPickler
 
 import numpy as np
 
 from lib import floatq as fq
 from lib import impl
+from sim import pool as simpool
 
 ALLOWED_AXIOMS = []
 TRUSTED = [
     "numpy kernels np.digitize / np.histogram / ndarray.sum and scipy KDTree construction are exercised, not verified; "
     "their documented semantics are what Model/Binning.v models (digitize: prefix of passing edges; histogram: inner bins [lo,hi), last bin [lo,hi])",
     "python-side membership (gen_member) is used only to shape generated inputs and to label the input distribution, never for a verdict",
+    "worker processes: the real multiprocessing pool (fork) is run with 2-4 workers; the 'pickling' pool runs the tasks in the "
+    "calling process and reproduces only what a pool does to tasks and results (ForkingPickler round trip), not the OS scheduling (C05); "
+    "MPI (mpi4py absent) is not exercised",
 ]
 ASSUMPTIONS = [
     "redshifts, edges and weights are dyadic rationals with few bits, so every float64 sum is exact and is compared with Qeq_bool",
     "objects handed to the model are the input rows grouped by their named patch (C02: the catalog stores exactly these)",
     "patch ids are 0..P-1 (PatchedSumWeights indexes columns by patch id)",
 ]
-RULE = ("cases = (closed side, weight column present, edges, per-patch lists of (redshift, weight), consumers observed); "
+RULE = ("cases = (closed side, weight column present, edges, per-patch lists of (redshift, weight), consumers observed, "
+        "where the work is done: serial / real worker processes / pickling pool / transported binning); "
         "distinct by that tuple; non-trivial when at least one redshift lies exactly on a bin edge or outside the binning "
-        "(the inputs on which the closed-side rule, the outer-edge mask and the index filter 0 < i <= nbins matter)")
+        "(the inputs on which the closed-side rule, the outer-edge mask and the index filter 0 < i <= nbins matter); "
+        "transport cases = (object type, transport, closed side, edges), all non-trivial")
 
 HEADER = "From Verif Require Import Prelude Binning.\nOpen Scope Q_scope.\n"
 
